@@ -104,7 +104,7 @@ def akai_program_items(rng, n: int):
         kgs = []
         for _ in range(nk):
             zones = []
-            for z in range(4):
+            for z in range(rng.choice([4, 4, 4, 3, 2, 1])):        # stored zone count: the block is 38 + 28*n bytes long
                 zones.append(dict(sample_name=(rng.choice(["", "", "", akai_name(rng)]) if sparse else rng.choice(["", akai_name(rng)])), low_velocity=S(rng.randrange(128)), high_velocity=S(rng.randrange(128)),
                                   tune_cents=rng.randrange(-128, 128), tune_semitones=S(rng.randrange(-128, 128)),
                                   loudness_offset=S(rng.randrange(-128, 128)), filter_cutoff_offset=S(rng.randrange(-128, 128)),
@@ -113,8 +113,8 @@ def akai_program_items(rng, n: int):
                             tune_semitones=S(rng.randrange(-128, 128)),
                             ints={k: S(rnd_field(rng, "akai_keygroup_head" if any(f["name"] == k for f in LAYOUTS["akai_keygroup_head"]) else "akai_keygroup_tail", k)) for k in KG_INT},
                             velocity_zone_crossfade=rng.choice([0, 1, 7]), hold_attack_until_loop=rng.choice([0, 1, 200]), zones=zones,
-                            aux=[rng.randrange(256) for _ in range(4)], track=[rng.choice([0, 1]) for _ in range(4)],
-                            vss=[rng.randrange(-9999, 9999) for _ in range(4)]))
+                            aux=[rng.randrange(256) for _ in range(len(zones))], track=[rng.choice([0, 1]) for _ in range(len(zones))],
+                            vss=[rng.randrange(-9999, 9999) for _ in range(len(zones))]))
         st = dict(file_name=f"P{i}" + akai_name(rng, 5), program_name=akai_name(rng),
                   ints={k: S(rnd_field(rng, "akai_program_header", k)) for k in PH_INT},
                   midi_channel=rng.choice([255, rng.randrange(16)]), aux_output_select=rng.choice([255, rng.randrange(8)]),
@@ -164,17 +164,18 @@ def program_bytes(st, rng) -> bytes:
         st["blocks"].append({"addr": addr[i], "kg": dict({k: v for k, v in kg.items() if k not in ("aux", "track", "vss")}, next=nxt)})
         head = dict(kv, next_keygroup_address=nxt, low_key=kg["low_key"], high_key=kg["high_key"],
                     tune_cents=kg["tune_cents"], tune_semitones=int(kg["tune_semitones"]), velocity_zone_crossfade=kg["velocity_zone_crossfade"],
-                    num_velocity_zones=4)
+                    num_velocity_zones=len(kg["zones"]))
         b = pack("akai_keygroup_head", head)
         for z in kg["zones"]:
             b += pack("akai_velocity_zone", dict(sample_name=z["sample_name"], low_velocity=int(z["low_velocity"]), high_velocity=int(z["high_velocity"]),
                                                  tune_cents=z["tune_cents"], tune_semitones=int(z["tune_semitones"]),
                                                  loudness_offset=int(z["loudness_offset"]), filter_cutoff_offset=int(z["filter_cutoff_offset"]),
                                                  pan_offset=int(z["pan_offset"]), loop_mode=z["loop_mode"], pad2c=b"\x2c", pad01=b"\x01"))
-        b += pack("akai_keygroup_tail", dict(kv, hold_attack_until_loop=kg["hold_attack_until_loop"], enable_key_tracking=bytes(kg["track"]),
-                                             aux_out_offset=bytes(kg["aux"]), velocity_to_sample_start=struct.pack("<4h", *kg["vss"])))
-        assert len(b) == 150
-        buf[addr[i]:addr[i] + 150] = b
+        nz = len(kg["zones"])
+        b += struct.pack("<bB", kv["beat_detune"], kg["hold_attack_until_loop"]) + bytes(kg["track"]) + bytes(kg["aux"]) + \
+            struct.pack(f"<{nz}h", *kg["vss"]) + struct.pack("<bB", kv["velocity_to_volume_offset"], 0)
+        assert len(b) == 38 + 28 * nz
+        buf[addr[i]:addr[i] + len(b)] = b
     return bytes(buf)
 
 
